@@ -20,6 +20,11 @@
 //   - sample additions go to tracks the fragment was created for;
 //   - boxes are added "in proper order": AddEmsg before any emsg is appended after the mdat with AddChild.
 //
+// Boxes are also added inside the moof (Moof.AddChild: free, skip, uuid, unknown, pssh) and inside the trafs
+// (Traf.AddChild: free, skip, uuid, unknown), before, between and after the sample additions; they must come out
+// byte for byte where they were put and must not disturb the data offsets. (A box between moof and mdat cannot be
+// produced through the API and DecodeFile refuses it, so it is not generated.)
+//
 // The model is, per track, the ordered list of samples added (bytes, duration, flags, composition
 // offset, decode time). Every history is encoded without optimisation and with OptimizeTrun (fresh
 // structures each time because optimisation mutates tfhd/trun) through the encoder the case names
@@ -27,6 +32,13 @@
 // read back three ways: mp4.DecodeFile + Fragment.GetFullSamples(trex), mp4.DecodeFileSR + the same,
 // and the independent reader fragbuild.Read (own offset arithmetic from the tfhd/trun fields), so that
 // an error that is symmetric in SetTrunDataOffsets/GetFullSamples cannot cancel out.
+//
+// Further reads of every encoded variant: the media part alone (file minus ftyp+moov) through both decoders with the
+// trex boxes of the separately decoded init; for fragments with one traf GetFullSamples(nil) and, with one trun,
+// GetSampleInterval over four ranges. With OptimizeTrun the encoded bytes must show what the option promises
+// (checkOptimised). A third of the cases carries TrexDrop: values equal to the trex defaults are switched off in
+// tfhd/trun through the exported Flags fields before encoding, so that the decoder's trex fallback
+// (TrunBox.AddSampleDefaultValues) decides what is read; the library itself never writes such fragments.
 package c05
 
 import (
@@ -100,17 +112,17 @@ type trackDef struct {
 	Start     uint64 `json:"start"` // decode time of the first sample of the track
 }
 
-// sampleDef: the data bytes are a function of (Seed, Size), see sampleBytes.
+// sampleDef: the data bytes are a function of (Seed, Size) and of the running number of the sample, see sampleBytes.
 type sampleDef struct {
 	Size  int    `json:"size"`
 	Seed  byte   `json:"seed"`
 	Dur   uint32 `json:"dur"`
 	Flags uint32 `json:"flags"`
 	Cto   int32  `json:"cto"`
-	Rep   int    `json:"rep,omitempty"` // the sample is added Rep more times (same values and bytes)
+	Rep   int    `json:"rep,omitempty"` // the sample is added Rep more times (same values; the bytes follow the sample counter)
 }
 
-// extraDef is a non-media box: Kind emsg0 | emsg1 | prft0 | prft1 | free | skip | uuid | unknown.
+// extraDef is a non-media box: Kind emsg0 | emsg1 | prft0 | prft1 | free | skip | uuid | unknown | pssh.
 type extraDef struct {
 	Kind string           `json:"kind"`
 	Data harness.HexBytes `json:"data,omitempty"`
@@ -132,6 +144,10 @@ type extraDef struct {
 //	           for: must return an error and leave the fragment as it is
 //	emsg       Fragment.AddEmsg(Extra[0])
 //	child      Fragment.AddChild(Extra[0])       (ends up after the mdat; not in mode meta)
+//	moofChild  Fragment.Moof.AddChild(Extra[0])  (free | skip | uuid | unknown | pssh: a box inside the moof,
+//	           behind whatever the moof holds at that point)
+//	trafChild  Fragment.Moof.Trafs[i].AddChild(Extra[0]) for the traf of Track (free | skip | uuid | unknown:
+//	           a box inside the traf, in front of the truns that are created later)
 type op struct {
 	Kind      string      `json:"kind"`
 	Styp      bool        `json:"styp,omitempty"`
@@ -150,13 +166,21 @@ type historyCase struct {
 	SeqStart uint32     `json:"seqStart"`
 	Ops      []op       `json:"ops"`
 	Encoder  string     `json:"encoder,omitempty"` // "w" Encode(io.Writer) | "sw" EncodeSW(SliceWriter) | "" both
-	NoAvoid  bool       `json:"noAvoid,omitempty"`
+	// TrexDrop: before encoding, every tfhd default and every per-sample trun field whose values all equal the
+	// track's trex default is switched off through the exported Flags fields (see dropTrexDefaults), so that the
+	// reader has to fall back to trex. The library has no option that does this.
+	TrexDrop bool `json:"trexDrop,omitempty"`
+	NoAvoid  bool `json:"noAvoid,omitempty"`
 }
 
-func sampleBytes(s sampleDef) []byte {
+// sampleBytes: the bytes of the ctr-th sample added in the history (all tracks counted together). The counter enters
+// every byte, so that neighbouring samples differ even when they are one byte long or repetitions of one sampleDef: a
+// shift inside a run of otherwise identical samples, or data read from another track's run, shows in the bytes.
+func sampleBytes(s sampleDef, ctr int) []byte {
 	d := make([]byte, s.Size)
+	k := byte(ctr*167) ^ byte(ctr>>8)*29
 	for i := range d {
-		d[i] = s.Seed + byte(i*31) ^ byte(i>>8)
+		d[i] = (s.Seed + byte(i*31) ^ byte(i>>8)) ^ k
 	}
 	return d
 }
@@ -189,6 +213,9 @@ func extraBytes(x extraDef, refTrack uint32) ([]byte, error) {
 		return boxwalk.Make("uuid", cat(u, x.Data)), nil
 	case "unknown":
 		return boxwalk.Make("zc05", x.Data), nil
+	case "pssh": // ISO/IEC 23001-7 8.1: version 0, SystemID, DataSize, Data
+		sys := []byte{0xed, 0xef, 0x8b, 0xa9, 0x79, 0xd6, 0x4a, 0xce, 0xa3, 0xc8, 0x27, 0xdc, 0xd5, 0x1d, 0x21, 0xed}
+		return boxwalk.Make("pssh", cat(be32(0), sys, be32(uint32(len(x.Data))), x.Data)), nil
 	}
 	return nil, fmt.Errorf("extra box kind %q", x.Kind)
 }
@@ -239,8 +266,11 @@ type builtFrag struct {
 	// expected top-level types of the fragment
 	emsgs, post []string
 	childEmsg   bool
-	runs        []int       // track index per trun, in write order (model)
-	firstRun    []sampleDef // the samples of the first trun of the first track of the fragment
+	moofKids    [][]byte         // boxes added to the moof, in order (expected bytes)
+	trafKids    map[int][][]byte // boxes added to the traf of a track index, in order
+	runs        []int            // track index per trun, in write order (model)
+	runBytes    []int            // total sample bytes per trun, parallel to runs
+	firstRun    []sampleDef      // the samples of the first trun of the first track of the fragment
 	nRuns       map[int]int
 }
 
@@ -320,6 +350,7 @@ func interpret(c *historyCase, st *stats) (*built, *harness.Fail) {
 	}
 	id := func(ti int) uint32 { return uint32(ti + 1) }
 	seq := c.SeqStart
+	ctr := 0 // running number of the sample being added (all tracks), see sampleBytes
 	var cs *builtSeg
 	var cf *builtFrag
 	for oi, o := range c.Ops {
@@ -371,7 +402,7 @@ func interpret(c *historyCase, st *stats) (*built, *harness.Fail) {
 			default:
 				return nil, bad("%s: mode %q multi %v", where, o.Mode, o.Multi)
 			}
-			cf = &builtFrag{mode: o.Mode, multi: o.Multi, tracks: o.Tracks, perTrack: map[int]int{}, nRuns: map[int]int{}}
+			cf = &builtFrag{mode: o.Mode, multi: o.Multi, tracks: o.Tracks, perTrack: map[int]int{}, nRuns: map[int]int{}, trafKids: map[int][][]byte{}}
 			var err error
 			if o.Multi {
 				cf.frag, err = mp4.CreateMultiTrackFragment(seq, ids)
@@ -424,6 +455,43 @@ func interpret(c *historyCase, st *stats) (*built, *harness.Fail) {
 			}
 			continue
 		}
+		if o.Kind == "moofChild" || o.Kind == "trafChild" {
+			if len(o.Extra) != 1 {
+				return nil, bad("%s: needs one box", where)
+			}
+			x := o.Extra[0]
+			switch t := extraType(x.Kind); {
+			case t == "emsg" || t == "prft":
+				return nil, bad("%s: %s inside a moof", where, t)
+			case t == "pssh" && o.Kind == "trafChild":
+				return nil, bad("%s: pssh inside a traf", where)
+			}
+			box, raw, err := extraBox(x, id(cf.tracks[0]))
+			if err != nil {
+				return nil, bad("%s: %v", where, err)
+			}
+			if o.Kind == "moofChild" {
+				if err := cf.frag.Moof.AddChild(box); err != nil {
+					return nil, harness.Failf("C05|MoofBox.AddChild|error", "%s: %v", where, err)
+				}
+				cf.moofKids = append(cf.moofKids, raw)
+				continue
+			}
+			idx := -1
+			for i, k := range cf.tracks {
+				if k == o.Track {
+					idx = i
+				}
+			}
+			if idx < 0 || idx >= len(cf.frag.Moof.Trafs) {
+				return nil, bad("%s: track %d has no traf in the fragment %v", where, o.Track, cf.tracks)
+			}
+			if err := cf.frag.Moof.Trafs[idx].AddChild(box); err != nil {
+				return nil, harness.Failf("C05|TrafBox.AddChild|error", "%s: %v", where, err)
+			}
+			cf.trafKids[o.Track] = append(cf.trafKids[o.Track], raw)
+			continue
+		}
 		if o.Kind == "wrongTrack" {
 			for _, k := range cf.tracks {
 				if k == o.Track {
@@ -444,7 +512,7 @@ func interpret(c *historyCase, st *stats) (*built, *harness.Fail) {
 				err = cf.frag.AddSampleToTrack(smp, id(o.Track), 12345)
 			} else {
 				api = "AddFullSampleToTrack"
-				err = cf.frag.AddFullSampleToTrack(mp4.FullSample{Sample: smp, DecodeTime: 12345, Data: sampleBytes(sd)}, id(o.Track))
+				err = cf.frag.AddFullSampleToTrack(mp4.FullSample{Sample: smp, DecodeTime: 12345, Data: sampleBytes(sd, ctr)}, id(o.Track))
 			}
 			if err == nil {
 				return nil, harness.Failf("C05|Fragment."+api+"|no error for a track id the fragment was not created for",
@@ -489,7 +557,8 @@ func interpret(c *historyCase, st *stats) (*built, *harness.Fail) {
 			}
 		}
 		for _, sd := range expanded {
-			d := sampleBytes(sd)
+			d := sampleBytes(sd, ctr)
+			ctr++
 			b.model[ti] = append(b.model[ti], modelSample{Data: d, Dur: sd.Dur, Flags: sd.Flags, Cto: sd.Cto, Time: times[ti]})
 			times[ti] += uint64(sd.Dur)
 			ss = append(ss, mp4.Sample{Flags: sd.Flags, Dur: sd.Dur, Size: uint32(sd.Size), CompositionTimeOffset: sd.Cto})
@@ -497,8 +566,10 @@ func interpret(c *historyCase, st *stats) (*built, *harness.Fail) {
 		}
 		if n := len(cf.runs); n == 0 || cf.runs[n-1] != ti {
 			cf.runs = append(cf.runs, ti)
+			cf.runBytes = append(cf.runBytes, 0)
 			cf.nRuns[ti]++
 		}
+		cf.runBytes[len(cf.runBytes)-1] += len(all)
 		if ti == cf.tracks[0] && cf.nRuns[ti] == 1 {
 			cf.firstRun = append(cf.firstRun, expanded...)
 		}
@@ -621,6 +692,97 @@ func encodeAll(b *built, useSW bool, opt mp4.EncOptimize) ([]byte, *harness.Fail
 	return out.bytes(), nil
 }
 
+// dropTrexDefaults rewrites the presence flags of the built fragments so that values equal to the trex defaults of the
+// track are stored nowhere in the fragment (ISO/IEC 14496-12 8.8.7/8.8.8: a value absent from trun comes from tfhd, a
+// value absent from tfhd comes from trex). With OptimizeTrun the library's own optimisation runs first (as
+// Fragment.Encode would run it), so that its tfhd defaults are candidates too. The sample values are untouched: what
+// must be read back stays the same.
+func dropTrexDefaults(b *built, opt mp4.EncOptimize, st *stats) *harness.Fail {
+	const (
+		tfhdDur, tfhdSize, tfhdFlags        = 0x08, 0x10, 0x20
+		trunDur, trunSize, trunFlags        = 0x100, 0x200, 0x400
+		trunCto, trunFirst           uint32 = 0x800, 0x004
+	)
+	for _, s := range b.segs {
+		for _, f := range s.frags {
+			if opt&mp4.OptimizeTrun != 0 && f.frag.Moof.Traf != nil {
+				if err := f.frag.Moof.Traf.OptimizeTfhdTrun(); err != nil {
+					return harness.Failf("C05|TrafBox.OptimizeTfhdTrun|error", "%v", err)
+				}
+			}
+			for _, tf := range f.frag.Moof.Trafs {
+				ti := int(tf.Tfhd.TrackID) - 1
+				if ti < 0 || ti >= len(b.init.Moov.Mvex.Trexs) {
+					return bad("traf with track id %d", tf.Tfhd.TrackID)
+				}
+				trex := b.init.Moov.Mvex.Trexs[ti]
+				for _, tr := range tf.Truns {
+					n := len(tr.Samples)
+					if n == 0 {
+						continue
+					}
+					dDur, dSize, dFlags := trex.DefaultSampleDuration, trex.DefaultSampleSize, trex.DefaultSampleFlags
+					if tf.Tfhd.HasDefaultSampleDuration() {
+						dDur = tf.Tfhd.DefaultSampleDuration
+					}
+					if tf.Tfhd.HasDefaultSampleSize() {
+						dSize = tf.Tfhd.DefaultSampleSize
+					}
+					if tf.Tfhd.HasDefaultSampleFlags() {
+						dFlags = tf.Tfhd.DefaultSampleFlags
+					}
+					allDur, allSize, allFlags, restFlags := true, true, true, true
+					for i, sm := range tr.Samples {
+						allDur = allDur && sm.Dur == dDur
+						allSize = allSize && sm.Size == dSize
+						allFlags = allFlags && sm.Flags == dFlags
+						restFlags = restFlags && (i == 0 || sm.Flags == dFlags)
+					}
+					flags := tr.Flags
+					if tr.HasSampleDuration() && allDur {
+						flags &^= trunDur
+					}
+					if tr.HasSampleFlags() && allFlags {
+						flags &^= trunFlags
+					} else if tr.HasSampleFlags() && restFlags && !tr.HasFirstSampleFlags() {
+						tr.SetFirstSampleFlags(tr.Samples[0].Flags)
+						flags = (flags | trunFirst) &^ trunFlags
+					}
+					// the trun decoder admits at most 1024 samples without any per-sample field: keep the sizes then
+					if tr.HasSampleSize() && allSize && (n <= 1024 || flags&(trunDur|trunFlags|trunCto) != 0) {
+						flags &^= trunSize
+					}
+					tr.Flags = flags
+				}
+				if tf.Tfhd.HasDefaultSampleDuration() && tf.Tfhd.DefaultSampleDuration == trex.DefaultSampleDuration {
+					tf.Tfhd.Flags &^= tfhdDur
+				}
+				if tf.Tfhd.HasDefaultSampleSize() && tf.Tfhd.DefaultSampleSize == trex.DefaultSampleSize {
+					tf.Tfhd.Flags &^= tfhdSize
+				}
+				if tf.Tfhd.HasDefaultSampleFlags() && tf.Tfhd.DefaultSampleFlags == trex.DefaultSampleFlags {
+					tf.Tfhd.Flags &^= tfhdFlags
+				}
+				for _, tr := range tf.Truns {
+					if len(tr.Samples) == 0 {
+						continue
+					}
+					if !tr.HasSampleDuration() && !tf.Tfhd.HasDefaultSampleDuration() {
+						st.class("trex-fallback:duration")
+					}
+					if !tr.HasSampleSize() && !tf.Tfhd.HasDefaultSampleSize() {
+						st.class("trex-fallback:size")
+					}
+					if !tr.HasSampleFlags() && !tf.Tfhd.HasDefaultSampleFlags() && (len(tr.Samples) > 1 || !tr.HasFirstSampleFlags()) {
+						st.class("trex-fallback:flags")
+					}
+				}
+			}
+		}
+	}
+	return nil
+}
+
 // ---------------------------------------------------------------------------------------------
 // the oracle
 
@@ -690,47 +852,6 @@ func cmpRef(what string, want []modelSample, got []fragbuild.PSample) *harness.F
 	return nil
 }
 
-// libSamples concatenates Fragment.GetFullSamples(trex) over all fragments.
-func libSamples(f *mp4.File, api string, nTracks, wantFrags int) ([][]mp4.FullSample, *harness.Fail) {
-	if !f.IsFragmented() || f.Init == nil || f.Init.Moov == nil || f.Init.Moov.Mvex == nil {
-		return nil, harness.Failf("C05|"+api+"|init not recognised", "fragmented %v init %v", f.IsFragmented(), f.Init != nil)
-	}
-	if len(f.Init.Moov.Traks) != nTracks {
-		return nil, harness.Failf("C05|"+api+"|number of tracks differs", "%d traks, %d added", len(f.Init.Moov.Traks), nTracks)
-	}
-	out := make([][]mp4.FullSample, nTracks)
-	nFrags := 0
-	for _, s := range f.Segments {
-		for _, fr := range s.Fragments {
-			if fr.Moof == nil || fr.Mdat == nil {
-				return nil, harness.Failf("C05|"+api+"|fragment without moof or mdat", "fragment %d", nFrags)
-			}
-			nFrags++
-		}
-	}
-	if nFrags != wantFrags {
-		return nil, harness.Failf("C05|"+api+"|number of fragments differs", "%d fragments decoded, %d encoded", nFrags, wantFrags)
-	}
-	for ti := 0; ti < nTracks; ti++ {
-		trex, ok := f.Init.Moov.Mvex.GetTrex(uint32(ti + 1))
-		if !ok {
-			return nil, harness.Failf("C05|"+api+"|no trex for track", "track id %d", ti+1)
-		}
-		k := 0
-		for _, s := range f.Segments {
-			for _, fr := range s.Fragments {
-				got, err := fr.GetFullSamples(trex)
-				if err != nil {
-					return nil, harness.Failf("C05|"+api+"+GetFullSamples|error", "fragment %d track id %d: %v", k, ti+1, err)
-				}
-				out[ti] = append(out[ti], got...)
-				k++
-			}
-		}
-	}
-	return out, nil
-}
-
 func evalHistory(c *historyCase, st *stats) *harness.Fail {
 	// static classes of the history that decide about the known-defect switches
 	probe, fail := interpret(c, st)
@@ -791,6 +912,12 @@ func evalHistory(c *historyCase, st *stats) *harness.Fail {
 				}
 			}
 			probe = nil // fresh structures per variant: encoding with optimisation mutates tfhd/trun
+			if c.TrexDrop {
+				vname += "/trex-drop"
+				if fail := dropTrexDefaults(b, opt, st); fail != nil {
+					return fail
+				}
+			}
 			file, fail := encodeAll(b, useSW, opt)
 			if fail != nil {
 				fail.Msg = vname + ": " + fail.Msg
@@ -831,7 +958,7 @@ func evalHistory(c *historyCase, st *stats) *harness.Fail {
 					}
 				}
 			}
-			if fail := checkEncoded(c, b, file, nFrags); fail != nil {
+			if fail := checkEncoded(c, b, file, nFrags, opt, st); fail != nil {
 				fail.Msg = vname + ": " + fail.Msg
 				return fail
 			}
@@ -840,7 +967,7 @@ func evalHistory(c *historyCase, st *stats) *harness.Fail {
 	return nil
 }
 
-func checkEncoded(c *historyCase, b *built, file []byte, nFrags int) *harness.Fail {
+func checkEncoded(c *historyCase, b *built, file []byte, nFrags int, opt mp4.EncOptimize, st *stats) *harness.Fail {
 	nT := len(c.Tracks)
 	// (2) the independent reader first: is the file what the history says?
 	p, err := fragbuild.Read(file)
@@ -885,6 +1012,21 @@ func checkEncoded(c *historyCase, b *built, file []byte, nFrags int) *harness.Fa
 			if len(m.Trafs) != len(f.tracks) {
 				return harness.Failf("C05|encoded bytes (independent reader)|number of trafs differs", "%s: %d trafs for tracks %v", what, len(m.Trafs), f.tracks)
 			}
+			// boxes added inside the moof and the trafs: all there, in order, byte for byte
+			sameBoxes := func(got []fragbuild.PBox, want [][]byte) bool {
+				if len(got) != len(want) {
+					return false
+				}
+				for i := range got {
+					if !bytes.Equal(got[i].Raw, want[i]) {
+						return false
+					}
+				}
+				return true
+			}
+			if !sameBoxes(m.Other, f.moofKids) {
+				return harness.Failf("C05|encoded bytes (independent reader)|boxes added to the moof differ", "%s: moof children %v, %d boxes added", what, m.ChildOrder, len(f.moofKids))
+			}
 			type run struct {
 				start, size uint64
 				track       int
@@ -893,6 +1035,9 @@ func checkEncoded(c *historyCase, b *built, file []byte, nFrags int) *harness.Fa
 			for i, tf := range m.Trafs {
 				if tf.Tfhd.TrackID != uint32(f.tracks[i]+1) {
 					return harness.Failf("C05|encoded bytes (independent reader)|traf order differs", "%s: traf %d has track id %d, created for %d", what, i, tf.Tfhd.TrackID, f.tracks[i]+1)
+				}
+				if !sameBoxes(tf.Other, f.trafKids[f.tracks[i]]) {
+					return harness.Failf("C05|encoded bytes (independent reader)|boxes added to a traf differ", "%s traf %d: children %v, %d boxes added", what, i, tf.ChildOrder, len(f.trafKids[f.tracks[i]]))
 				}
 				for _, tr := range tf.Truns {
 					var n uint64
@@ -919,12 +1064,28 @@ func checkEncoded(c *historyCase, b *built, file []byte, nFrags int) *harness.Fa
 					return harness.Failf("C05|encoded bytes (independent reader)|run data does not tile the mdat payload in write order", "%s: run of track index %d starts at %d, expected %d", what, r.track, r.start, pos)
 				}
 				pos += r.size
-				order = append(order, r.track)
+				if r.size > 0 {
+					order = append(order, r.track)
+				}
 			}
 			if pos != m.Mdat.Offset+m.Mdat.Size {
 				return harness.Failf("C05|encoded bytes (independent reader)|run data does not fill the mdat payload", "%s: runs end at %d, mdat at %d", what, pos, m.Mdat.Offset+m.Mdat.Size)
 			}
-			_ = order
+			// The data of the runs lies in the mdat in the order in which the runs were started (TrunBox write order
+			// number / Fragment next-trun counter, "let that happen in write order" in CreateMultiTrackFragment; in mode
+			// meta the caller writes the data in call order). Runs without data bytes have no position.
+			var wantOrder []int
+			for i, ti := range f.runs {
+				if f.runBytes[i] > 0 {
+					wantOrder = append(wantOrder, ti)
+				}
+			}
+			if fmt.Sprint(order) != fmt.Sprint(wantOrder) {
+				return harness.Failf("C05|encoded bytes (independent reader)|run write order differs", "%s: runs lie in the mdat in track-index order %v, they were started in order %v", what, order, wantOrder)
+			}
+			if fail := checkOptimised(c, f, m, what, opt, st); fail != nil {
+				return fail
+			}
 		}
 	}
 	for ti := 0; ti < nT; ti++ {
@@ -948,25 +1109,220 @@ func checkEncoded(c *historyCase, b *built, file []byte, nFrags int) *harness.Fa
 	if err != nil {
 		return decErr("DecodeFile", err)
 	}
-	s1, fail := libSamples(f1, "DecodeFile", nT, nFrags)
-	if fail != nil {
-		return fail
-	}
 	f2, err := mp4.DecodeFileSR(bits.NewFixedSliceReader(file))
 	if err != nil {
 		return decErr("DecodeFileSR", err)
 	}
-	s2, fail := libSamples(f2, "DecodeFileSR", nT, nFrags)
-	if fail != nil {
-		return fail
+	for _, d := range []struct {
+		f   *mp4.File
+		api string
+	}{{f1, "DecodeFile"}, {f2, "DecodeFileSR"}} {
+		if !d.f.IsFragmented() || d.f.Init == nil || d.f.Init.Moov == nil || d.f.Init.Moov.Mvex == nil {
+			return harness.Failf("C05|"+d.api+"|init not recognised", "fragmented %v init %v", d.f.IsFragmented(), d.f.Init != nil)
+		}
+		if len(d.f.Init.Moov.Traks) != nT {
+			return harness.Failf("C05|"+d.api+"|number of tracks differs", "%d traks, %d added", len(d.f.Init.Moov.Traks), nT)
+		}
+		if fail := checkDecoded(c, b, d.f, d.api, d.f.Init.Moov.Mvex, nFrags, st); fail != nil {
+			return fail
+		}
+	}
+	// (3) the media part alone (what a player gets after it has fetched the init segment separately): the moof of the
+	// first fragment then starts at offset 0 or right behind styp/free boxes; trex comes from the init decoded before
+	if len(p.Boxes) > 2 && nFrags > 0 {
+		cut := p.Boxes[2].Offset
+		ini, err := mp4.DecodeFile(bytes.NewReader(file[:cut]))
+		if err != nil || ini.Init == nil || ini.Init.Moov == nil || ini.Init.Moov.Mvex == nil {
+			return harness.Failf("C05|DecodeFile(init alone)|error", "%v", err)
+		}
+		media := file[cut:]
+		g1, err := mp4.DecodeFile(bytes.NewReader(media))
+		if err != nil {
+			return decErr("DecodeFile(media alone)", err)
+		}
+		g2, err := mp4.DecodeFileSR(bits.NewFixedSliceReader(media))
+		if err != nil {
+			return decErr("DecodeFileSR(media alone)", err)
+		}
+		st.class("read-media-part-alone")
+		if fail := checkDecoded(c, b, g1, "DecodeFile(media alone)", ini.Init.Moov.Mvex, nFrags, st); fail != nil {
+			return fail
+		}
+		if fail := checkDecoded(c, b, g2, "DecodeFileSR(media alone)", ini.Init.Moov.Mvex, nFrags, st); fail != nil {
+			return fail
+		}
+	}
+	return nil
+}
+
+// checkDecoded compares what the library reads from a decoded file with the model: Fragment.GetFullSamples(trex) per
+// track over all fragments; for fragments with one traf also GetFullSamples(nil) (the function takes the first traf
+// then and has no trex to fall back to, so only when the case does not rely on trex) and, if that traf has one trun,
+// GetSampleInterval over the whole run, its first and last sample and its inner part.
+func checkDecoded(c *historyCase, b *built, f *mp4.File, api string, mvex *mp4.MvexBox, nFrags int, st *stats) *harness.Fail {
+	nT := len(c.Tracks)
+	var frags []*mp4.Fragment
+	for _, s := range f.Segments {
+		for _, fr := range s.Fragments {
+			if fr.Moof == nil || fr.Mdat == nil {
+				return harness.Failf("C05|"+api+"|fragment without moof or mdat", "fragment %d", len(frags))
+			}
+			frags = append(frags, fr)
+		}
+	}
+	if len(frags) != nFrags {
+		return harness.Failf("C05|"+api+"|number of fragments differs", "%d fragments decoded, %d encoded", len(frags), nFrags)
 	}
 	for ti := 0; ti < nT; ti++ {
-		if fail := cmpLib(fmt.Sprintf("track index %d", ti), "DecodeFile+GetFullSamples", b.model[ti], s1[ti]); fail != nil {
+		trex, ok := mvex.GetTrex(uint32(ti + 1))
+		if !ok {
+			return harness.Failf("C05|"+api+"|no trex for track", "track id %d", ti+1)
+		}
+		var all []mp4.FullSample
+		for k, fr := range frags {
+			got, err := fr.GetFullSamples(trex)
+			if err != nil {
+				return harness.Failf("C05|"+api+"+GetFullSamples|error", "fragment %d track id %d: %v", k, ti+1, err)
+			}
+			all = append(all, got...)
+		}
+		if fail := cmpLib(fmt.Sprintf("track index %d", ti), api+"+GetFullSamples", b.model[ti], all); fail != nil {
 			return fail
 		}
-		if fail := cmpLib(fmt.Sprintf("track index %d", ti), "DecodeFileSR+GetFullSamples", b.model[ti], s2[ti]); fail != nil {
-			return fail
+	}
+	// per fragment with a single traf
+	pos := make([]int, nT)
+	k := 0
+	for _, s := range b.segs {
+		for _, bf := range s.frags {
+			fr := frags[k]
+			what := fmt.Sprintf("fragment %d", k)
+			k++
+			var want []modelSample
+			if len(bf.tracks) == 1 {
+				ti := bf.tracks[0]
+				want = b.model[ti][pos[ti] : pos[ti]+bf.perTrack[ti]]
+			}
+			for _, ti := range bf.tracks {
+				pos[ti] += bf.perTrack[ti]
+			}
+			if len(bf.tracks) != 1 || len(fr.Moof.Trafs) != 1 {
+				continue
+			}
+			ti := bf.tracks[0]
+			trex, _ := mvex.GetTrex(uint32(ti + 1))
+			if !c.TrexDrop {
+				got, err := fr.GetFullSamples(nil)
+				if err != nil {
+					return harness.Failf("C05|"+api+"+GetFullSamples(nil)|error", "%s: %v", what, err)
+				}
+				if fail := cmpLib(what, api+"+GetFullSamples(nil)", want, got); fail != nil {
+					return fail
+				}
+				st.class("read-GetFullSamples-without-trex")
+			}
+			if len(fr.Moof.Traf.Truns) != 1 || len(want) == 0 {
+				continue
+			}
+			n := len(want)
+			for _, r := range [][2]int{{1, n}, {1, 1}, {n, n}, {2, n - 1}} {
+				if r[0] < 1 || r[1] < r[0] || r[1] > n {
+					continue
+				}
+				si, err := fr.GetSampleInterval(trex, uint32(r[0]), uint32(r[1]))
+				if err != nil {
+					return harness.Failf("C05|"+api+"+GetSampleInterval|error", "%s samples %d-%d of %d: %v", what, r[0], r[1], n, err)
+				}
+				w := want[r[0]-1 : r[1]]
+				var off, size int
+				for _, ms := range want[:r[0]-1] {
+					off += len(ms.Data)
+				}
+				var data []byte
+				for _, ms := range w {
+					size += len(ms.Data)
+					data = append(data, ms.Data...)
+				}
+				var field string
+				switch {
+				case len(si.Samples) != len(w):
+					field = "number of samples"
+				case si.FirstDecodeTime != w[0].Time:
+					field = "first decode time"
+				case int(si.Size) != size:
+					field = "size"
+				case int(si.OffsetInMdat) != off:
+					field = "offset in mdat"
+				case !bytes.Equal(si.Data, data):
+					field = "bytes"
+				}
+				for i := 0; field == "" && i < len(w); i++ {
+					g := si.Samples[i]
+					if g.Dur != w[i].Dur || int(g.Size) != len(w[i].Data) || g.Flags != w[i].Flags || g.CompositionTimeOffset != w[i].Cto {
+						field = "sample values"
+					}
+				}
+				if field != "" {
+					return harness.Failf("C05|"+api+"+GetSampleInterval|"+field+" differs", "%s samples %d-%d of %d: got time=%d size=%d offset=%d %d samples data=%s; added time=%d size=%d offset=%d %d samples data=%s",
+						what, r[0], r[1], n, si.FirstDecodeTime, si.Size, si.OffsetInMdat, len(si.Samples), harness.HexTrunc(si.Data, 24), w[0].Time, size, off, len(w), harness.HexTrunc(data, 24))
+				}
+				st.class("read-GetSampleInterval")
+			}
 		}
+	}
+	return nil
+}
+
+// checkOptimised: what OptimizeTrun promises ("optimize trun box by moving default values to tfhd";
+// TrafBox.OptimizeTfhdTrun: "Only look at first trun, even if there is more than one") must have happened to the first
+// trun of the first traf when it holds more than one sample: a common duration / size (up to 1024 samples) / flags of
+// all samples but the first are in tfhd and not per sample, a differing first sample uses first_sample_flags, and
+// composition offsets that are all zero are not written. Read from the encoded bytes with the independent reader.
+func checkOptimised(c *historyCase, f *builtFrag, m *fragbuild.PMoof, what string, opt mp4.EncOptimize, st *stats) *harness.Fail {
+	r := f.firstRun
+	if opt&mp4.OptimizeTrun == 0 || c.TrexDrop || len(r) < 2 || len(m.Trafs) == 0 || len(m.Trafs[0].Truns) == 0 {
+		return nil
+	}
+	tfhd, trun := &m.Trafs[0].Tfhd, &m.Trafs[0].Truns[0]
+	if int(trun.SampleCount) != len(r) {
+		return nil // counted elsewhere
+	}
+	sameDur, sameSize, sameFlags, zeroCto := true, true, true, true
+	for i, sd := range r {
+		sameDur = sameDur && sd.Dur == r[0].Dur
+		sameSize = sameSize && sd.Size == r[0].Size
+		sameFlags = sameFlags && (i == 0 || sd.Flags == r[1].Flags)
+		zeroCto = zeroCto && sd.Cto == 0
+	}
+	fail := func(rel, format string, a ...interface{}) *harness.Fail {
+		return harness.Failf("C05|OptimizeTrun|"+rel, what+": first trun of the first traf, %d samples: "+format, append([]interface{}{len(r)}, a...)...)
+	}
+	if sameDur {
+		if !tfhd.HasDefDur() || tfhd.DefDur != r[0].Dur || trun.HasDur() {
+			return fail("common sample duration not moved to tfhd", "all durations %d; tfhd flags %#x default %d, trun flags %#x", r[0].Dur, tfhd.Flags, tfhd.DefDur, trun.Flags)
+		}
+		st.class("optimisation-asserted:duration")
+	}
+	if sameSize && len(r) <= 1024 {
+		if !tfhd.HasDefSize() || int(tfhd.DefSize) != r[0].Size || trun.HasSize() {
+			return fail("common sample size not moved to tfhd", "all sizes %d; tfhd flags %#x default %d, trun flags %#x", r[0].Size, tfhd.Flags, tfhd.DefSize, trun.Flags)
+		}
+		st.class("optimisation-asserted:size")
+	}
+	if sameFlags {
+		if !tfhd.HasDefFlags() || tfhd.DefFlags != r[1].Flags || trun.HasFlags() {
+			return fail("common sample flags not moved to tfhd", "flags %#x from the second sample on; tfhd flags %#x default %#x, trun flags %#x", r[1].Flags, tfhd.Flags, tfhd.DefFlags, trun.Flags)
+		}
+		if first := r[0].Flags != r[1].Flags; first != trun.HasFirstSampleFlags() || (first && trun.FirstSampleFlags != r[0].Flags) {
+			return fail("first_sample_flags not used as promised", "first sample %#x, others %#x; trun flags %#x first_sample_flags %#x", r[0].Flags, r[1].Flags, trun.Flags, trun.FirstSampleFlags)
+		}
+		st.class("optimisation-asserted:flags")
+	}
+	if zeroCto {
+		if trun.HasCto() {
+			return fail("all-zero composition offsets still written", "trun flags %#x", trun.Flags)
+		}
+		st.class("optimisation-asserted:cto")
 	}
 	return nil
 }
@@ -1050,16 +1406,26 @@ func genBase(t *rapid.T) *base {
 	return b
 }
 
+// tail: a low-probability branch (about one case in n; drawn through a byte so that rapid's preference for the bounds
+// of an integer range does not make it frequent).
+func tail(t *rapid.T, label string, n int) bool {
+	return int(rapid.Uint32().Draw(t, label)%uint32(n)) == n-1
+}
+
 func genCase(t *rapid.T) historyCase {
 	var c historyCase
 	nt := rapid.SampledFrom([]int{1, 1, 2, 2, 3, 4}).Draw(t, "ntracks")
+	if tail(t, "manyTracks", 40) {
+		nt = rapid.SampledFrom([]int{6, 8}).Draw(t, "ntracksTail")
+	}
+	c.TrexDrop = rapid.IntRange(0, 2).Draw(t, "trexDrop") == 0
 	for i := 0; i < nt; i++ {
 		td := trackDef{
 			Timescale: rapid.SampledFrom([]uint32{1, 1000, 12800, 48000, 90000, 10000000}).Draw(t, "timescale"),
 			Media:     rapid.SampledFrom([]string{"video", "audio", "text", "subtitle"}).Draw(t, "media"),
 			Start:     rapid.SampledFrom(startPalette).Draw(t, "start"),
 		}
-		if rapid.Bool().Draw(t, "trexSet") {
+		if c.TrexDrop || rapid.Bool().Draw(t, "trexSet") {
 			td.TrexDur = rapid.SampledFrom(durPalette).Draw(t, "trexDur")
 			td.TrexSize = uint32(sizeGen.Draw(t, "trexSize"))
 			td.TrexFlags = rapid.SampledFrom(flagPalette).Draw(t, "trexFlags")
@@ -1067,10 +1433,11 @@ func genCase(t *rapid.T) historyCase {
 		c.Tracks = append(c.Tracks, td)
 	}
 	c.SeqStart = rapid.SampledFrom([]uint32{1, 1, 0, 100, 0xfffffff0}).Draw(t, "seqStart")
-	c.Encoder = rapid.SampledFrom([]string{"w", "sw"}).Draw(t, "encoder")
+	c.Encoder = rapid.SampledFrom([]string{"w", "sw", "w", "sw", "w", "sw", "w", "sw", "w", ""}).Draw(t, "encoder") // "": both, on the same history
 	topKinds := []string{"prft0", "prft1", "free", "skip", "uuid", "unknown"}
 	childKinds := []string{"prft0", "prft1", "free", "skip", "uuid", "unknown", "emsg0", "emsg1"}
 	emsgKinds := []string{"emsg0", "emsg1"}
+	moofKinds := []string{"free", "skip", "uuid", "unknown", "pssh"} // the first four also inside a traf
 	nSeg := rapid.SampledFrom([]int{1, 1, 2, 3}).Draw(t, "nseg")
 	for si := 0; si < nSeg; si++ {
 		so := op{Kind: "segment", Styp: rapid.Bool().Draw(t, "styp"), Piecewise: rapid.IntRange(0, 3).Draw(t, "piecewise") == 0}
@@ -1085,6 +1452,9 @@ func genCase(t *rapid.T) historyCase {
 		}
 		c.Ops = append(c.Ops, so)
 		nFrag := rapid.SampledFrom([]int{1, 1, 2, 3}).Draw(t, "nfrag")
+		if tail(t, "manyFragments", 40) {
+			nFrag = rapid.SampledFrom([]int{5, 8}).Draw(t, "nfragTail")
+		}
 		for fi := 0; fi < nFrag; fi++ {
 			fo := op{Kind: "fragment"}
 			fo.LargeMdat = rapid.IntRange(0, 5).Draw(t, "largeMdat") == 0
@@ -1126,8 +1496,24 @@ func genCase(t *rapid.T) historyCase {
 			bases := map[int]*base{}
 			for _, ti := range fo.Tracks {
 				bases[ti] = genBase(t)
+				if c.TrexDrop {
+					// values that coincide with the trex defaults of the track, so that something can be dropped
+					td := c.Tracks[ti]
+					if rapid.Bool().Draw(t, "durFromTrex") {
+						bases[ti].s.Dur = td.TrexDur
+					}
+					if rapid.Bool().Draw(t, "sizeFromTrex") && td.TrexSize <= 1200 {
+						bases[ti].s.Size = int(td.TrexSize)
+					}
+					if rapid.Bool().Draw(t, "flagsFromTrex") {
+						bases[ti].s.Flags = td.TrexFlags
+					}
+				}
 			}
 			nOps := rapid.SampledFrom([]int{0, 1, 2, 2, 3, 4, 5, 6, 8, 10}).Draw(t, "nops")
+			if tail(t, "manyOps", 40) {
+				nOps = rapid.SampledFrom([]int{20, 30}).Draw(t, "nopsTail")
+			}
 			if len(active) == 0 {
 				nOps = 0
 			}
@@ -1162,6 +1548,12 @@ func genCase(t *rapid.T) historyCase {
 					x := genExtra(t, childKinds)
 					childEmsg = childEmsg || extraType(x.Kind) == "emsg"
 					c.Ops = append(c.Ops, op{Kind: "child", Extra: []extraDef{x}})
+				}
+				if rapid.IntRange(0, 11).Draw(t, "addMoofChild") == 0 {
+					c.Ops = append(c.Ops, op{Kind: "moofChild", Extra: []extraDef{genExtra(t, moofKinds)}})
+				}
+				if rapid.IntRange(0, 11).Draw(t, "addTrafChild") == 0 {
+					c.Ops = append(c.Ops, op{Kind: "trafChild", Track: rapid.SampledFrom(fo.Tracks).Draw(t, "trafOf"), Extra: []extraDef{genExtra(t, moofKinds[:4])}})
 				}
 				if fo.Mode != "interval" && rapid.IntRange(0, 15).Draw(t, "wrongTrack") == 0 {
 					// a track of the init the fragment was not created for, or an id that is in no trak
@@ -1218,6 +1610,13 @@ func genCase(t *rapid.T) historyCase {
 			if nOps == 0 && rapid.IntRange(0, 3).Draw(t, "emsgOnEmpty") == 0 {
 				c.Ops = append(c.Ops, op{Kind: "emsg", Extra: []extraDef{genExtra(t, emsgKinds)}})
 			}
+			// a box added to the moof / a traf after all samples (behind the truns)
+			if rapid.IntRange(0, 9).Draw(t, "lateMoofChild") == 0 {
+				c.Ops = append(c.Ops, op{Kind: "moofChild", Extra: []extraDef{genExtra(t, moofKinds)}})
+			}
+			if rapid.IntRange(0, 9).Draw(t, "lateTrafChild") == 0 {
+				c.Ops = append(c.Ops, op{Kind: "trafChild", Track: rapid.SampledFrom(fo.Tracks).Draw(t, "lateTrafOf"), Extra: []extraDef{genExtra(t, moofKinds[:4])}})
+			}
 			// known-defect classes (see avoidKnown): kept in one of eight occurrences (the oracle then skips the
 			// optimised variants of the case), otherwise steered away from by giving the first track a sample
 			firstIdle := true
@@ -1250,6 +1649,8 @@ func classify(c *historyCase) (nontrivial bool, classes []string) {
 		}
 	}
 	add(true, fmt.Sprintf("tracks-%d", len(c.Tracks)))
+	add(c.TrexDrop, "trex-drop-variant")
+	add(c.Encoder == "", "both-encoders-on-one-history")
 	add(c.Encoder != "sw", "encoder-Encode")
 	add(c.Encoder != "w", "encoder-EncodeSW")
 	nontrivial = len(c.Tracks) >= 2
@@ -1266,7 +1667,9 @@ func classify(c *historyCase) (nontrivial bool, classes []string) {
 		lastTi   int
 		nRuns    map[int]int
 		nSamples int
+		runs     int
 	}
+	nFragTotal := 0
 	var fs *fragState
 	closeFrag := func() {
 		if fs == nil {
@@ -1280,7 +1683,9 @@ func classify(c *historyCase) (nontrivial bool, classes []string) {
 				set["track-with->=2-truns-in-fragment"] = true
 				nontrivial = true
 			}
+			add(fs.nRuns[ti] >= 3, "track-with->=3-truns")
 		}
+		add(len(fs.nRuns) >= 3 && fs.runs > len(fs.nRuns), "runs-interleaved-over->=3-tracks")
 		fs = nil
 	}
 	nFragInSeg := 0
@@ -1305,6 +1710,8 @@ func classify(c *historyCase) (nontrivial bool, classes []string) {
 		case "fragment":
 			closeFrag()
 			nFragInSeg++
+			nFragTotal++
+			add(o.Multi && o.Mode == "meta" && len(o.Tracks) >= 2, "mode-meta-multi-track")
 			fs = &fragState{multi: o.Multi, tracks: o.Tracks, per: map[int]int{}, nRuns: map[int]int{}, lastTi: -1}
 			add(o.LargeMdat, "fragment-mdat-64bit-header")
 			add(o.Multi, "fragment-multi-track")
@@ -1320,6 +1727,14 @@ func classify(c *historyCase) (nontrivial bool, classes []string) {
 			set["op-AddChild"] = true
 			set["extra:"+extraType(o.Extra[0].Kind)] = true
 			nontrivial = true
+		case "moofChild":
+			set["op-Moof.AddChild"] = true
+			set["box-inside-moof:"+extraType(o.Extra[0].Kind)] = true
+			nontrivial = true
+		case "trafChild":
+			set["op-Traf.AddChild"] = true
+			set["box-inside-traf:"+extraType(o.Extra[0].Kind)] = true
+			nontrivial = true
 		case "wrongTrack":
 			set["op-add-to-track-not-in-fragment"] = true
 		default:
@@ -1331,6 +1746,7 @@ func classify(c *historyCase) (nontrivial bool, classes []string) {
 			if fs != nil {
 				if fs.lastTi != o.Track {
 					fs.nRuns[o.Track]++
+					fs.runs++
 					fs.lastTi = o.Track
 				}
 				for _, sd := range o.Samples {
@@ -1353,6 +1769,8 @@ func classify(c *historyCase) (nontrivial bool, classes []string) {
 	closeFrag()
 	add(nFragInSeg >= 2, "segment-with->=2-fragments")
 	add(nSeg >= 2, "segments->=2")
+	add(nFragTotal >= 5, "fragments->=5")
+	add(len(c.Ops) >= 40, "ops->=40")
 	for k := range set {
 		classes = append(classes, k)
 	}
@@ -1368,7 +1786,8 @@ func TestFragHistories(t *testing.T) {
 		f := harness.Guarded(func() *harness.Fail { return evalHistory(&c, &st) })
 		nt, classes := classify(&c)
 		if st.classes["optimised:some-flag-changed"] || st.classes["optimised:tfhd-default-duration"] ||
-			st.classes["optimised:tfhd-default-size"] || st.classes["optimised:tfhd-default-flags"] {
+			st.classes["optimised:tfhd-default-size"] || st.classes["optimised:tfhd-default-flags"] ||
+			st.classes["trex-fallback:duration"] || st.classes["trex-fallback:size"] || st.classes["trex-fallback:flags"] {
 			nt = true
 		}
 		dyn := make([]string, 0, len(st.classes))
